@@ -879,7 +879,12 @@ snarf_fld(struct ical_vevent_s ve[static 1U],
 		with (echs_instant_t i = snarf_dt(eof, vp, ep)) {
 			switch (fld) {
 			case FLD_DTSTART:
-				ve->from = i;
+				/* written out, the rules and then the dates
+				 * of an event each come with the DTSTART they
+				 * go on from, the first one is the event's */
+				if (echs_nul_instant_p(ve->from)) {
+					ve->from = i;
+				}
 				break;
 			case FLD_COMPL:
 				ve->comp = i;
@@ -2207,6 +2212,8 @@ struct evical_s {
 	size_t i;
 	/* whether these are dates of exceptions, EXDATEs */
 	bool exc;
+	/* whether these are dates that go along with rules */
+	bool sub;
 	/* array size and data */
 	size_t nev;
 	echs_event_t ev[];
@@ -2238,6 +2245,7 @@ make_evical_vevent(const struct echs_event_s *ev, size_t nev)
 	res->class = &evical_cls;
 	res->i = 0U;
 	res->exc = false;
+	res->sub = false;
 	res->nev = nev;
 	memcpy(res->ev, ev, zev);
 	return (echs_evstrm_t)res;
@@ -2262,6 +2270,7 @@ clone_evical_vevent(echs_const_evstrm_t s)
 		this->ev + this->i, this->nev - this->i);
 	if (LIKELY(res != NULL)) {
 		res->exc = this->exc;
+		res->sub = this->sub;
 	}
 	return (echs_evstrm_t)res;
 }
@@ -2296,10 +2305,11 @@ send_evical_vevent(int whither, echs_const_evstrm_t s)
 		fdbang(whither);
 	}
 	/* the dates to come go as RDATEs, the one above included as DTSTART
-	 * isn't an occurrence in the presence of RDATEs, mind the parser's
-	 * line limit */
+	 * isn't an occurrence in the presence of RDATEs or rules (next to
+	 * rules a single date is listed too for that reason), mind the
+	 * parser's line limit */
 	for (size_t j = this->i;
-	     (this->exc || this->nev > 1U) && j < this->nev; j++) {
+	     (this->exc || this->sub || this->nev > 1U) && j < this->nev; j++) {
 		char stmp[32U];
 		size_t ztmp;
 
@@ -2417,6 +2427,7 @@ __make_evrdat(echs_event_t e, const echs_instant_t *d, size_t nd, bool exc)
 	res->class = &evical_cls;
 	res->i = 0U;
 	res->exc = exc;
+	res->sub = false;
 	res->nev = nd;
 	return (echs_evstrm_t)res;
 }
@@ -3005,7 +3016,9 @@ make_task(struct ical_vevent_s *ve)
 
 			if (xr != NULL && x1 != NULL) {
 				/* mux them into one */
-				sx = echs_evstrm_mux(xr, x1, NULL);
+				/* no need for clones, they're ours */
+				sx = echs_evstrm_vmux(
+					(echs_evstrm_t[]){xr, x1}, 2U);
 			} else if (xr != NULL) {
 				sx = xr;
 			} else {
@@ -3021,8 +3034,12 @@ make_task(struct ical_vevent_s *ve)
 			r1 = __make_evrdat(e, ve->rdat.dt, ve->rdat.ndt, false);
 
 			if (rr != NULL && r1 != NULL) {
-				/* mux them into one */
-				sr = echs_evstrm_mux(rr, r1, NULL);
+				((struct evical_s*)r1)->sub = true;
+				/* mux them into one, no clones here either,
+				 * or each of several rules would bring its
+				 * own DTSTART when written out */
+				sr = echs_evstrm_vmux(
+					(echs_evstrm_t[]){rr, r1}, 2U);
 			} else if (rr != NULL) {
 				sr = rr;
 			} else {
